@@ -5,17 +5,20 @@
              [key |-> CodeKey, ids |-> <<recording ids>>]
    recs    : every recording handed over so far (id -> [id, http, hasresp, req])
    opts    : ctx.options (the server_replay_* options, see Mon_ServerReplay)
-   Deviations of the code from the statement, transcribed here on purpose:
-     CodeKey     -- _hash() takes the path from urllib.parse.urlparse(url), which splits off the ";parameters"
-                    of the last segment: they are not part of the hash
-     Recompute   -- recompute_hashes() flattens flowmap.values() (grouped by OLD key) and reloads that list, so
-                    recordings whose keys become equal are ordered by old key group, not by recording order *)
+   Two behaviours exist before / after the fixes 155ecd753 and 632209ed8; props/C52.py passes the values that
+   describe the tree under test:
+     PathParams   -- "dropped": _hash() took the path from urlparse(url), which splits off the ";parameters" of the
+                     last segment; "kept": urlsplit(url)
+     ReindexOrder -- "grouped": recompute_hashes() reloaded flowmap.values() flattened (grouped by OLD key);
+                     "recording": the flattened list is first sorted by ServerPlayback._order (recording order) *)
 EXTENDS Mon_ServerReplay, TLC
 CONSTANTS Batches,    \* sequence of sequences of [http, hasresp, req]
           Reqs,       \* sequence of request records
           OptOps,     \* sequence of [name, val]: single option updates
           InitOpts,   \* set of initial option records
-          MaxOps, MaxLoads
+          MaxOps, MaxLoads,
+          PathParams,   \* "dropped" | "kept"
+          ReindexOrder  \* "grouped" | "recording"
 VARIABLES flowmap, recs, opts, ops, nloads, mon, obs
 vars == <<flowmap, recs, opts, ops, nloads, mon, obs>>
 
@@ -27,7 +30,7 @@ Live == mon.bad = <<>>
 
 \* ServerPlayback._hash: urlparse drops the path parameters; multipart fields are bytes pairs and urlencoded fields
 \* str pairs, so the form encodings are told apart exactly when a non-ignored field is left
-CodeKey(r, o) == [RefKey(r, o) EXCEPT !.path = <<r.path[1]>>,
+CodeKey(r, o) == [RefKey(r, o) EXCEPT !.path = IF PathParams = "dropped" THEN <<r.path[1]>> ELSE r.path,
                                       !.body = IF FormBranch(r, o)
                                                THEN <<"form", IF Fields(r, o) = <<>> THEN "" ELSE r.ftype, Fields(r, o)>>
                                                ELSE @]
@@ -89,7 +92,9 @@ Concat(ss) == IF ss = <<>> THEN <<>> ELSE Head(ss) \o Concat(Tail(ss))
 SetOption(u) ==
   /\ Live /\ ops < MaxOps
   /\ LET o2 == [opts EXCEPT ![OptOps[u].name] = OptOps[u].val]
-         flat == Concat([k \in 1..Len(flowmap) |-> flowmap[k].ids])
+         \* recording ids grow in recording order, so sorting by _order is sorting by id
+         flat == IF ReindexOrder = "grouped" THEN Concat([k \in 1..Len(flowmap) |-> flowmap[k].ids])
+                 ELSE Held(flowmap)
          fm == IF OptOps[u].name \in HashNames THEN AddAll(<<>>, recs, flat, o2) ELSE flowmap
      IN /\ opts' = o2 /\ flowmap' = fm
         /\ Emit(<<[k |-> "opt", opts |-> o2, held |-> Held(fm), n |-> CountIds(fm)]>>)
